@@ -2,6 +2,7 @@ package props
 
 import (
 	"path/filepath"
+	"strings"
 
 	"verif/checker/internal/core"
 	"verif/checker/internal/fam"
@@ -38,6 +39,11 @@ func C08(c *core.Ctx) {
 			})
 		}
 	}
+	// an enum that lists nothing (or a value no typed field can equal) admits no value: the generator cannot express that and must
+	// refuse it — reporting success with a plain type in its place accepts everything (hostile members, shared with C18)
+	runHostile(c, func(name string) bool {
+		return strings.HasPrefix(name, "empty-enum ") || strings.HasPrefix(name, "nonprimitive-enum ")
+	})
 	// which declaration a same-named schema is bound to decides which constraints validate it (A-DEDUP)
 	ruleDedup(c)
 	// the list the generator sees is the list the document states: no value dropped, merged or re-typed by the decoder
